@@ -446,6 +446,8 @@ def return_value(ret, qual, mname, invalid=False):
         v = qual("Item") + ('{Name: "", Count: 1}' if invalid else '{Name: "n", Count: 1}')
     elif base == "ItemKind":
         v = qual("ItemKind") + '("red")'
+    elif base in ("ItemId", "Tag"):
+        v = qual(base) + '("t")'
     else:
         v = qual(base) + "{}"
     if ret.startswith("*"):
@@ -466,7 +468,7 @@ def zero_of(ret, qual):
         return "0"
     if ret == "bool":
         return "false"
-    if ret == "ItemKind":
+    if ret in ("ItemKind", "ItemId", "Tag"):
         return qual(ret) + '("")'
     return qual(ret) + "{}"
 
@@ -511,6 +513,34 @@ type ItemId string
 """
 
 
+# Types declared in the controller's OWN package (the renderer leaves these names unqualified):
+# two controllers in ctl and ctlb then use different types of the same name from different packages.
+LOCAL_TYPES = ("Dto", "Tag")
+LOCAL_TYPES_GO = """package %s
+
+// A package-local payload
+type Dto struct {
+	// The name
+	Name string `json:"name"`
+	N    int    `json:"n"`
+}
+
+// A package-local alias
+type Tag string
+"""
+
+
+def uses_local_types(p, pkg):
+    for c in p["controllers"]:
+        if c["pkg"] != pkg:
+            continue
+        for m in c["methods"]:
+            ts = [x["type"] for x in m["params"]] + [m["ret"] or ""]
+            if any(t_.lstrip("*[]") in LOCAL_TYPES for t_ in ts):
+                return True
+    return False
+
+
 def write_auth(root, engine):
     d = os.path.join(root, "auth_" + engine)
     os.makedirs(d, exist_ok=True)
@@ -540,8 +570,14 @@ def engine_config(p, root, k, engine, flags):
     exp = {k2: True for k2 in ("validateTopLevelOnlyEnum", "generateEnumValidator") if flags.get(k2)}
     if exp:
         conf["experimentalConfig"] = exp
+    def expand(v):
+        if isinstance(v, str):
+            return v.replace("{engine}", engine)
+        if isinstance(v, dict):
+            return {a: expand(b) for a, b in v.items()}
+        return v
     for k2, v in (flags.get("routesConfig") or {}).items():
-        rc[k2] = v
+        rc[k2] = expand(v)      # "{engine}" in a raw override is replaced by the engine name
     out = "gleece-%s.json" % engine
     with open(os.path.join(root, out), "w") as f:
         json.dump(conf, f, indent=1)
@@ -690,9 +726,10 @@ def attribute_failures(text, pairs):
     return bad, {k: "\n".join(v) for k, v in why.items()}
 
 
-def build_servers(prop, projects, engines=ALL5, flags=None, extra_types=True, cli_workers=16):
+def build_servers(prop, projects, engines=ALL5, flags=None, extra_types=True, cli_workers=16, prepare=None):
     """See module docstring.  flags: None | dict (all projects) | list of dict/None (per project); keys
-    validateResponsePayload, validateTopLevelOnlyEnum, generateEnumValidator, routesConfig (raw overrides)."""
+    validateResponsePayload, validateTopLevelOnlyEnum, generateEnumValidator, routesConfig (raw overrides; "{engine}"
+    in string values is replaced by the engine name).  prepare(handle, k, root) is called after project k is rendered."""
     h = Handle(prop, projects, engines)
     t0 = time.time()
     build_cli()
@@ -710,6 +747,10 @@ def build_servers(prop, projects, engines=ALL5, flags=None, extra_types=True, cl
         if extra_types:
             with open(os.path.join(root, "types", "extra.go"), "w") as f:
                 f.write(EXTRA_TYPES_GO)
+        for pkg in sorted(set(c["pkg"] for c in p["controllers"])):
+            if uses_local_types(p, pkg):
+                with open(os.path.join(root, pkg, "zz_local_types.go"), "w") as f:
+                    f.write(LOCAL_TYPES_GO % pkg)
         fl = flags[k] if isinstance(flags, list) else flags
         h.generation[k], h.compiles[k] = {}, {}
         for e in h.engines:
@@ -717,6 +758,8 @@ def build_servers(prop, projects, engines=ALL5, flags=None, extra_types=True, cl
             cfg = engine_config(p, root, k, e, fl)
             jobs.append({"dir": root, "args": ["generate", "routes", "-c", cfg], "timeout": 180})
             index.append((k, e))
+        if prepare:
+            prepare(h, k, root)     # extra files (template overrides, hand-written code) before the CLI runs
     h.timings["render_s"] = round(time.time() - t1, 2)
     t2 = time.time()
     before = {(k, e): file_state(h.routes_path(k, e)) for (k, e) in index}
